@@ -16,9 +16,11 @@ type c02Op struct {
 }
 
 type c02Args struct {
-	PreOpen   int       `json:"pre_open"`
-	Procs     [][]c02Op `json:"procs"`
-	YieldSeed uint64    `json:"yield_seed"`
+	PreOpen    int       `json:"pre_open"`
+	Procs      [][]c02Op `json:"procs"`
+	YieldSeed  uint64    `json:"yield_seed"`
+	Burst      int       `json:"burst,omitempty"`
+	BurstTypes []string  `json:"burst_types,omitempty"`
 }
 
 type c02Ev struct {
@@ -31,7 +33,8 @@ type c02Ev struct {
 }
 
 type c02Out struct {
-	Events []c02Ev `json:"events"`
+	Events []c02Ev   `json:"events"`
+	Trials [][]c02Ev `json:"trials,omitempty"`
 	Sig    uint64  `json:"sig"`
 	Hits   uint64  `json:"hits"`
 }
@@ -90,7 +93,7 @@ func init() {
 	register(&Property{
 		ID:    "C02",
 		Level: "exploration",
-		Rule: "concurrent API histories of <= 14 operations on one real stream: 1-3 writer goroutines (Open ... SetDataType(name) ... Close, some opened before the start as createProcess does) racing with 1-3 reader goroutines (GetDataType, ForceClose); type names from \"\", null, *, json, str and random identifiers; hook yields inside the GetDataType poll loop and SetDataType; every call recorded with logical call/return stamps at the API boundary; " +
+		Rule: "concurrent API histories of <= 14 operations on one real stream: 1-3 writer goroutines (Open ... SetDataType(name) ... Close, some opened before the start as createProcess does) racing with 1-3 reader goroutines (GetDataType, ForceClose); type names from \"\", null, *, json, str and random identifiers; hook yields inside the GetDataType poll loop and SetDataType; plus tight-race bursts (250 trials per case: 2-3 writers released together from a spin barrier, each declaring a different type and closing, against a reader polling GetDataType); every call recorded with logical call/return stamps at the API boundary; " +
 			"oracle: porcupine linearizability check against the sequential model (first non-empty non-null declaration wins and never changes; Get returns it, or * once all writers closed / the stream was cancelled without a declaration; a Get may not return while undeclared with writers open); non-trivial = >= 2 competing declarations or a Get overlapping a Set or the last Close; distinct by history description",
 		Assumptions: []string{"writers never call GetDataType between their own Open and Close (that would wait for itself)", "a porcupine timeout is reported as inconclusive"},
 		Technique:   "runtime monitoring: recorded concurrent history checked for linearizability (porcupine v1.3.0) against a sequential model, hook-injected yields",
@@ -138,6 +141,14 @@ func init() {
 				args, _ := json.Marshal(a)
 				cases = append(cases, &proto.Case{ID: fmt.Sprintf("c02-%d", i), Op: "c02.hist", Args: args, TimeoutMs: 30000})
 			}
+			// tight-race bursts: writers released together from a spin barrier
+			nb := x.Pick(48, 2000)
+			for i := 0; i < nb; i++ {
+				r := x.Rng("burst", i)
+				types := [][]string{{"json", "csv"}, {"str", "yaml", "json"}, {"", "xml", "toml"}, {"null", "a", "b"}, {"x", "y"}}[r.Intn(5)]
+				args, _ := json.Marshal(c02Args{Burst: 250, BurstTypes: types})
+				cases = append(cases, &proto.Case{ID: fmt.Sprintf("c02-burst-%d", i), Op: "c02.hist", Args: args, TimeoutMs: 120000})
+			}
 			x.RunAll(pool, cases)
 		},
 		Check: func(x *Ctx, c *proto.Case, r *proto.Result) {
@@ -147,6 +158,38 @@ func init() {
 			var o c02Out
 			if err := json.Unmarshal(r.Out, &o); err != nil {
 				x.Inconclusive("malformed c02 result")
+				return
+			}
+			if len(o.Trials) > 0 {
+				x.Eval(len(o.Trials) - 1)
+				for ti, evs := range o.Trials {
+					x.Count("burst_trials", 1)
+					x.Count("operations", int64(len(evs)))
+					var ops []porcupine.Operation
+					for _, e := range evs {
+						ops = append(ops, porcupine.Operation{ClientId: e.Proc + 1, Input: e, Call: e.Call, Output: e.Out, Return: e.Ret})
+					}
+					if ti < 40 {
+						x.Nontrivial(fmt.Sprintf("%s-%d-%d", c.ID, ti, len(evs)))
+					}
+					switch porcupine.CheckOperationsTimeout(c02Model, ops, 20*time.Second) {
+					case porcupine.Unknown:
+						x.Inconclusive("porcupine timed out")
+					case porcupine.Illegal:
+						types := map[string]bool{}
+						for _, e := range evs {
+							if e.Op == "get" {
+								types[e.Out] = true
+							}
+						}
+						sig := "not-linearizable"
+						if len(types) > 1 {
+							sig = "type-changed"
+						}
+						x.Viol("datatype:"+sig, fmt.Sprintf("tight-race trial %d is not linearizable against the set-once model: %s", ti, mustJSON(evs)), c, evs, "a linearization")
+						return
+					}
+				}
 				return
 			}
 			var ops []porcupine.Operation
